@@ -107,16 +107,26 @@ static void reference(void)
     if (k >= 32) continue;                          /* account names are shorter than 32 characters */
     ++calls;
     if (busy_at && calls == busy_at) { ref_kind = OUT_SYS; return; }
-    for (i = 0; i < NP; ++i) {
-      int eq = (pnlen[i] == k);
-      for (j = 0; j < NM; ++j) { if (j >= k) break; if (eq && pname[i][j] != lower(local_in[j])) eq = 0; }
-      if (!eq) continue;
-      /* first passwd line with that name decides */
-      if (pws[i].pw_uid == 0) break;                                    /* (1) nonzero uid */
-      if (statmode[i] == 1) break;                                      /* (2) home exists */
-      if (statmode[i] == 2) { ref_kind = OUT_NFS; return; }             /*     cannot tell: trouble */
-      if (!owner_same[i] && (uid_t) owner_other != pws[i].pw_uid) break; /* (3) owns its home */
-      ref_kind = OUT_USER; ref_entry = (int) i; ref_k = k; return;
+    {
+      /* the passwd line getpwnam finds for lower(local[0..k)): the first table entry with that name, or the alias
+       * account itself when the candidate spells its name (it is an account like any other) */
+      int e = -1;
+      for (i = 0; i < NP; ++i) {
+        int eq = (pnlen[i] == k);
+        for (j = 0; j < NM; ++j) { if (j >= k) break; if (eq && pname[i][j] != lower(local_in[j])) eq = 0; }
+        if (eq && e < 0) e = (int) i;
+      }
+      if (e < 0 && alias_exists && k == strlen(auto_usera)) {
+        int eq = 1;
+        for (j = 0; j < L; ++j) { if (j >= k) break; if ((unsigned char) auto_usera[j] != lower(local_in[j])) eq = 0; }
+        if (eq) e = NP;
+      }
+      if (e < 0) continue;
+      if (pws[e].pw_uid == 0) continue;                                  /* (1) nonzero uid */
+      if (statmode[e] == 1) continue;                                    /* (2) home exists */
+      if (statmode[e] == 2) { ref_kind = OUT_NFS; return; }              /*     cannot tell: trouble */
+      if (!owner_same[e] && (uid_t) owner_other != pws[e].pw_uid) continue; /* (3) owns its home */
+      ref_kind = OUT_USER; ref_entry = e; ref_k = k; return;
     }
   }
   ++calls;
